@@ -94,6 +94,106 @@ class Function:
         if "cfg" in j:
             from . import flow
             self.cfg = flow.CFG(self, j["cfg"])
+        self.flagdefs = self._find_flagdefs()
+        if self.flagdefs:
+            for n in walk(self.body):
+                if n.get("k") == "ref" and n.get("d") in self.flagdefs:
+                    n["flagdef"] = self.flagdefs[n["d"]]
+
+    def _find_flagdefs(self):
+        """{local: condition} for a flag local that holds the truth of a condition: written exactly once, outside any loop,
+        in a function without labels, from a side-effect-free comparison / logical expression or `c ? K1 : K0`; never
+        address-taken; and between that write and the last read of the flag nothing the condition reads is written (its
+        locals and parameters; any memory, and any call other than the assertion printers, if it reads memory).  Reading the
+        flag is then evaluating the condition: every read carries the condition as `flagdef`, and the engines refine on
+        it (X.implied, GhostPos.refine, Cap.branch) exactly as if the condition were written in place."""
+        import re
+        writes = {}
+        taken = set()
+        for x in walk(self.body):
+            k = x.get("k")
+            if k in ("label", "goto"):
+                return {}
+            if k == "assign":
+                l = x["ch"][0]
+                while l is not None and l.get("k") in ("paren", "icast", "cast"):
+                    l = l["ch"][0]
+                if l is not None and l.get("k") == "ref" and l.get("rk") == "local":
+                    writes.setdefault(l["d"], []).append((x, x["ch"][1] if x.get("op") == "=" else None))
+            elif k == "un" and x.get("op") in ("++", "--", "&"):
+                l = x["ch"][0]
+                while l is not None and l.get("k") in ("paren", "icast", "cast"):
+                    l = l["ch"][0]
+                if l is not None and l.get("k") == "ref":
+                    if x.get("op") == "&":
+                        taken.add(l.get("d"))
+                    else:
+                        writes.setdefault(l.get("d"), []).append((x, None))
+            elif k == "decl":
+                for dcl in x.get("decls", ()):
+                    if dcl.get("init") is not None:
+                        writes.setdefault(dcl["d"], []).append((x, dcl["init"]))
+        out = {}
+        for d, ws in writes.items():
+            vd = self.vardecls.get(d)
+            if vd is None or len(ws) != 1 or ws[0][1] is None or d in taken or vd.get("tp") or not vd.get("tw") or vd.get("alen"):
+                continue
+            node, rhs = ws[0]
+            c = rhs
+            while c is not None and c.get("k") in ("paren", "icast", "cast"):
+                c = c["ch"][0]
+            if c is None:
+                continue
+            if c.get("k") == "cond":
+                tv, fv = c["ch"][1], c["ch"][2]
+                while tv is not None and tv.get("k") in ("paren", "icast", "cast"):
+                    tv = tv["ch"][0]
+                while fv is not None and fv.get("k") in ("paren", "icast", "cast"):
+                    fv = fv["ch"][0]
+                if tv is None or fv is None or tv.get("cv") is None or fv.get("cv") is None or bool(tv["cv"]) == bool(fv["cv"]):
+                    continue
+            elif not ((c.get("k") == "bin" and c.get("op") in ("<", ">", "<=", ">=", "==", "!=", "&&", "||")) or
+                      (c.get("k") == "un" and c.get("op") == "!")):
+                continue
+            if any(y.get("k") in ("assign", "call", "stmtexpr") or (y.get("k") == "un" and y.get("op") in ("++", "--")) for y in walk(c)):
+                continue
+            q = self.parent.get(node["i"])
+            inloop = False
+            while q is not None:
+                if q.get("k") in ("for", "while", "do"):
+                    inloop = True
+                q = self.parent.get(q["i"])
+            if inloop:
+                continue
+            uses = [x["i"] for x in walk(self.body) if x.get("k") == "ref" and x.get("d") == d]
+            last = max(uses) if uses else node["i"]
+            start = max(y["i"] for y in walk(node))
+            rd_vars = {y["d"] for y in walk(c) if y.get("k") == "ref" and y.get("rk") in ("local", "param")}
+            if rd_vars & taken:
+                continue
+            reads_mem = any(y.get("k") in ("member", "index") or (y.get("k") == "un" and y.get("op") == "*") or
+                            (y.get("k") == "ref" and y.get("rk") == "global") for y in walk(c))
+            ok = True
+            for y in walk(self.body):
+                if not (start < y["i"] <= last):
+                    continue
+                k = y.get("k")
+                if k == "assign" or (k == "un" and y.get("op") in ("++", "--")):
+                    l = y["ch"][0]
+                    while l is not None and l.get("k") in ("paren", "icast", "cast"):
+                        l = l["ch"][0]
+                    if l.get("k") == "ref" and l.get("rk") in ("local", "param"):
+                        if l.get("d") in rd_vars:
+                            ok = False
+                    elif reads_mem:
+                        ok = False
+                if k == "call" and reads_mem:
+                    cal = y.get("callee")
+                    if not re.match(r"libast_(fatal_error|print_warning|print_error|dprintf)$", cal or "?"):
+                        ok = False
+            if ok:
+                out[d] = c
+        return out
 
     def param_index(self, declid):
         for i, p in enumerate(self.params):
